@@ -26,26 +26,32 @@ RULE = ("rounds of 2..16 client threads, each opening real TCP connections to on
         "(sequence of client ids as served) over rounds; non-trivial = rounds in which >= 2 "
         "requests were pending at the same time. Slow-request rounds make one blockchainState "
         "take 6.5 s (thorough: also 12, 32, 62, 125 s) while other clients queue, so that a "
-        "server that gives up on a long request and moves on is exposed")
+        "server that gives up on a long request and moves on is exposed. Link-fault rounds break "
+        "the link at a seeded exchange and let the next 1..3 reconnections find no device while "
+        "three clients keep sending, fall silent for 1.3..2.4 s and resume: any exchange performed outside a request "
+        "(e.g. by a background retry) belongs to no interval and is reported")
 ASSUMPTIONS = [
     "schedules are those the OS produces under injected device delays; not enumerated",
     "a client whose connection times out is left open in the history (counted, not judged)",
 ]
 FLOORS = {"quick": {"evaluations": 120, "pending_overlap_pairs": 150, "apdus_attributed": 1200,
                     "replies_matched": 120, "distinct": 4,
-                    "slow_request_rounds": 1},
+                    "slow_request_rounds": 1, "link_fault_rounds": 3,
+                    "device_error_replies_in_fault_rounds": 3},
           "thorough": {"evaluations": 15000, "pending_overlap_pairs": 100000,
                        "apdus_attributed": 200000, "replies_matched": 15000, "distinct": 300,
-                       "slow_request_rounds": 5}}
+                       "slow_request_rounds": 5, "link_fault_rounds": 60,
+                       "device_error_replies_in_fault_rounds": 100}}
 
 
 def shards(tier, seed):
     if tier == "quick":
         return [{"seed": seed * 100 + i, "rounds": 2, "max_clients": 8, "per_client": 3,
-                 "slow": [6.5] if i == 0 else []} for i in range(8)]
+                 "slow": [6.5] if i == 0 else [],
+                 "fault_rounds": 1 if 1 <= i <= 3 else 0} for i in range(8)]
     slow = {0: [6.5], 1: [12.0], 2: [32.0], 3: [62.0], 4: [125.0]}
     return [{"seed": seed * 100 + i, "rounds": 60, "max_clients": 16, "per_client": 4,
-             "slow": slow.get(i, [])} for i in range(16)]
+             "slow": slow.get(i, []), "fault_rounds": 6 if i >= 5 else 0} for i in range(16)]
 
 
 class Recorder:
@@ -147,8 +153,12 @@ def expected_from_apdus(kind, apdus):
     return exp
 
 
-def run_round(acc, spec, rnd, rng, slow=None):
-    """slow: total seconds one blockchainState request is made to take (a request that
+def run_round(acc, spec, rnd, rng, slow=None, fault=None):
+    """fault: {"after": k, "efail": j, "kind": ...} - the link fails at the k-th exchange
+    of the round and the next j reconnections find no device; clients keep sending for
+    some seconds, so that any repair work done outside a request (a background retry)
+    shows up as exchanges that belong to no request.
+    slow: total seconds one blockchainState request is made to take (a request that
     outlasts any per-request time-out a server might have) while other clients queue"""
     from ..stack import Stack
     from comm.server import TCPServer
@@ -156,6 +166,8 @@ def run_round(acc, spec, rnd, rng, slow=None):
     dev = fresh_device(rng)
     nclients = rng.randint(2, spec["max_clients"]) if not slow else 3
     per = spec["per_client"] if not slow else 2
+    if fault:
+        nclients, per = 3, 7
     case = {"seed": spec["seed"], "round": rnd}
     with Stack(dev) as s:
         delay_rng = random.Random(rng.getrandbits(32))
@@ -163,6 +175,8 @@ def run_round(acc, spec, rnd, rng, slow=None):
         def hook(bus, apdu):
             if slow and len(apdu) > 1 and apdu[1] == 0x20:
                 time.sleep(slow / 9.0)
+            elif fault:
+                time.sleep(0.002 + delay_rng.random() * 0.006)
             else:
                 time.sleep(delay_rng.random() * 0.002)
         s.bus.exchange_hook = hook
@@ -211,6 +225,18 @@ def run_round(acc, spec, rnd, rng, slow=None):
                 plan[c] = [("state", byname["state"])] if c == 0 else \
                     [("signhash", byname["signhash"]), ("pubkey", byname["pubkey"])]
         barrier = threading.Barrier(nclients)
+        if fault:
+            from ..simdev.transport import Fault
+            s.bus.arm({fault["after"]: Fault(fault["kind"])})
+            # efail None: the device stays unplugged until the clients fall silent and
+            # is plugged back at the start of the silence
+            s.bus.enumerate_fail = fault["efail"] if fault["efail"] else 10**9
+            pause = random.Random(rng.getrandbits(32))
+            if not fault["efail"]:
+                def replug():
+                    time.sleep(0.7)
+                    s.bus.enumerate_fail = 0
+                threading.Thread(target=replug, daemon=True).start()
 
         def client(c):
             try:
@@ -219,7 +245,15 @@ def run_round(acc, spec, rnd, rng, slow=None):
                 pass
             if slow and c > 0:
                 time.sleep(0.3 * c)
+            t_start = time.time()
             for i, (kind, mk) in enumerate(plan[c]):
+                if fault:
+                    # three quick requests each (the fault and the failed reconnections
+                    # happen here), then every client stays silent for `gap` seconds with
+                    # the device back, then traffic resumes
+                    time.sleep(0.02 + pause.random() * 0.1)
+                    if i == 3:
+                        time.sleep(max(0.0, t_start + 0.6 + fault["gap"] - time.time()))
                 rid = "r%d.c%d.%d" % (rnd, c, i)
                 req = mk()
                 req["_rid"] = rid
@@ -305,6 +339,10 @@ def run_round(acc, spec, rnd, rng, slow=None):
         except Exception:
             bad("client-got-unparseable-reply", rid=rid, data=data[:100].decode("latin1"))
             continue
+        if fault and reply.get("errorcode") == -905:
+            # the faulted request and those that found no device while reconnecting
+            acc.count("device_error_replies_in_fault_rounds")
+            continue
         if reply.get("errorcode") not in (0, 1):
             bad("request-failed-under-concurrency:%s" % kind, rid=rid, reply=reply)
             continue
@@ -358,6 +396,12 @@ def run_shard(spec, acc):
     for k, total in enumerate(spec.get("slow", [])):
         acc.count("slow_request_rounds")
         run_round(acc, spec, 1000 + k, rng, slow=total)
+    for k in range(spec.get("fault_rounds", 0)):
+        acc.count("link_fault_rounds")
+        run_round(acc, spec, 2000 + k, rng, fault={
+            "after": rng.randint(2, 12), "efail": rng.choice([None, None, 1, 2]) if k else None,
+            "gap": rng.choice([1.3, 1.7, 2.4]),
+            "kind": rng.choice(["read_error", "write_error"])})
 
 
 def replay(case, acc):
